@@ -46,57 +46,6 @@ Definition mismatch (c : case) : bool :=
 
 (* ---- the property, as a predicate on (input, observed); the resolver model is not mentioned ---- *)
 
-(* a function whose return statements list only "plain" expressions: anything whose Result.Expr is not re-inspected
-   (literals and operators on them are of this kind), or an identifier that no assignment of the body mentions and
-   that the parser does not resolve (nil, true, false) *)
-Definition lhs_objs (evs : list event) : list N :=
-  flat_map (fun ev => match ev with
-                      | EvAssign a => flat_map (fun l => match l with LIdent (Some o) | LSel (Some o) => [o] | _ => [] end) (as_lhs a)
-                      | _ => []
-                      end) evs.
-
-Definition plain_alt (assigned : list N) (a : alt) : bool :=
-  match a_x a with
-  | XOther => true
-  | XIdent false o => negb (existsb (N.eqb o) assigned)
-  | _ => false
-  end.
-
-Definition plain_expr (assigned : list N) (e : expr) : option alt :=
-  match e with
-  | EVal a => if plain_alt assigned a then Some a else None
-  | _ => None
-  end.
-
-Fixpoint opt_all' {A} (l : list (option A)) : option (list A) :=
-  match l with
-  | [] => Some []
-  | Some a :: r => match opt_all' r with Some r' => Some (a :: r') | None => None end
-  | None :: _ => None
-  end.
-
-(* Some rows: the function is of that kind; rows = the values of its return statements, in source order *)
-Definition plain_returns (fd : fdef) : option (list (list alt)) :=
-  match f_body fd with
-  | None => None
-  | Some body =>
-      let evs := flatten_all body in
-      let assigned := lhs_objs evs in
-      let rows := flat_map (fun ev => match ev with
-                                      | EvReturn _ (Some es) =>
-                                          if Nat.eqb (length es) (nres fd) then [opt_all' (map (plain_expr assigned) es)] else [None]
-                                      | EvReturn _ None => [None]
-                                      | EvAssign _ => []
-                                      end) evs in
-      match opt_all' rows with
-      | Some (r :: rs) => Some (r :: rs)
-      | _ => None
-      end
-  end.
-
-Definition column (rows : list (list alt)) (i : nat) : list bytes :=
-  flat_map (fun row => match nth_error row i with Some a => [a_txt a] | None => [] end) rows.
-
 Definition literal_ok (p : prog) (cc : callcase) (ls : list (list oalt)) : bool :=
   match cc_entry cc with
   | EnBody f =>
@@ -104,7 +53,7 @@ Definition literal_ok (p : prog) (cc : callcase) (ls : list (list oalt)) : bool 
       | Some fd =>
           match plain_returns fd with
           | Some rows =>
-              list_eqb (list_eqb bytes_eqb) (map (map o_txt) ls) (map (column rows) (seq 0 (nres fd)))
+              list_eqb (list_eqb bytes_eqb) (map (map o_txt) ls) (map (fun i => map a_txt (column rows i)) (seq 0 (nres fd)))
           | None => true
           end
       | None => true
